@@ -706,6 +706,131 @@ def replay_h_cats_in_text(il, io, negate, with_meta, as_tuple):
         shutil.rmtree(dd, ignore_errors=True)
 
 
+INT_META = {"field_name": "p", "name": "p", "pandas_type": "int64", "numpy_type": "int64", "metadata": None}
+
+
+class _IntCast:
+    """stands for numpy inside util.val_from_meta: np.dtype('int64').type(x) is the C cast - the integer itself, the
+    decimal text parsed, a float truncated toward zero (documented numpy behaviour, asserted concretely in the replay)"""
+
+    class _DT:
+        def __init__(self, name):
+            self.name = name
+
+        def __eq__(self, other):
+            return self.name == other
+
+        def type(self, x):
+            # not int(x): the builtin insists on a concrete result and would enumerate the values one by one
+            return x.__int__() if isinstance(x, Half) else x if isinstance(x, int) else int(x)
+
+    @classmethod
+    def dtype(cls, t):
+        return t if isinstance(t, cls._DT) else cls._DT(t)
+
+
+class Half:
+    """a float constant whose value is n/2 (exactly representable), kept in integer arithmetic so that every query
+    stays linear: comparisons with integers and with other Half values are exact, int() truncates toward zero as the
+    C cast does.  Registered as numbers.Real - it stands for a Python float."""
+
+    def __init__(self, n):
+        self.n = n
+
+    def _twice(self, o):
+        return o.n if isinstance(o, Half) else 2 * o
+
+    def __eq__(self, o):
+        return self.n == self._twice(o)
+
+    def __ne__(self, o):
+        return self.n != self._twice(o)
+
+    def __lt__(self, o):
+        return self.n < self._twice(o)
+
+    def __le__(self, o):
+        return self.n <= self._twice(o)
+
+    def __gt__(self, o):
+        return self.n > self._twice(o)
+
+    def __ge__(self, o):
+        return self.n >= self._twice(o)
+
+    def __hash__(self):
+        return hash(self.n)
+
+    def __int__(self):
+        return self.n // 2 if self.n >= 0 else -((-self.n) // 2)
+
+    def __float__(self):
+        return self.n / 2
+
+
+import numbers as _numbers
+_numbers.Real.register(Half)
+
+
+def h_cats_int_label_other_kind(p: int, n: int, op1: int, with_meta: bool) -> bool:
+    """
+    pre: 0 <= op1 < 9 and -10**9 <= p <= 10**9 and -2 * 10**9 <= n <= 2 * 10**9
+    post: __return__
+    """
+    # an INTEGER partition column (recorded as int64 in the pandas metadata, as the real writer does, or without
+    # metadata) and a filter constant of a different but comparable kind: the float n/2.  The typing of the constant
+    # and of the label is the real util.val_to_num / val_from_meta (numpy's cast stubbed by its contract; the
+    # text -> int step of the label is h_cats_label_typing's subject): pruned only if the label really fails the clause
+    import fastparquet.util as util
+    const = Half(n)
+    if op1 >= 7:
+        const = [Half(n), Half(n + 2)]
+    rg = _part_rg(5, [("p", p)])
+    saved = api.val_to_num, util.np, util._val_to_num
+    api.val_to_num, util.np, util._val_to_num = util.val_to_num, _IntCast, (lambda x: x)
+    try:
+        pruned = api.filter_out_cats(rg, [("p", OPS[op1], const)], {"p": INT_META} if with_meta else {})
+    finally:
+        api.val_to_num, util.np, util._val_to_num = saved
+    if not row_pred(OPS[op1], p, const):
+        return True
+    return not pruned
+
+
+def replay_h_cats_int_label_other_kind(p, n, op1, with_meta):
+    import tempfile, os, shutil
+    import numpy as np
+    import pandas as pd
+    import fastparquet
+    const = n / 2
+    assert int(np.dtype("int64").type(const)) == int(const)         # the stub's contract
+    if op1 >= 7:
+        const = [const, const + 1]
+    dd = tempfile.mkdtemp(prefix="c05-")
+    try:
+        dn = os.path.join(dd, "ds")
+        fastparquet.write(dn, pd.DataFrame({"p": [p, p, p + 1], "a": [1, 2, 3]}), file_scheme="hive",
+                          partition_on=["p"])
+        if not with_meta:
+            os.remove(os.path.join(dn, "_metadata"))
+            os.remove(os.path.join(dn, "_common_metadata"))
+            for dp, _, fs in os.walk(dn):
+                for f in fs:
+                    fastparquet.writer.update_file_custom_metadata(os.path.join(dp, f), {"pandas": None})
+        pf = fastparquet.ParquetFile(dn)
+        flt = [("p", OPS[op1], const)]
+        out = pf.to_pandas(filters=flt)
+        kept = sorted(int(x) for x in out["a"])
+        if not row_pred(OPS[op1], p, const):
+            return False, "the rows of partition p=%d do not satisfy %r" % (p, flt)
+        if not (1 in kept and 2 in kept):
+            return True, ("integer partition p=%d (%s partition metadata): filter %r keeps rows a=%r; rows a=1, a=2 "
+                          "satisfy it" % (p, "with" if with_meta else "without", flt, kept))
+        return False, "kept"
+    finally:
+        shutil.rmtree(dd, ignore_errors=True)
+
+
 # ------------------------------------------------------------ filter_row_groups --
 class _PF:
     def __init__(self, rgs):
